@@ -48,7 +48,11 @@ PairRows == [i \in 1..Len(PairCases) |->
                 perSend |-> PairCases[i][2], fragment |-> PairCases[i][3],
                 sizes |-> <<1, 2, 255, 4096, 65534, 65535>>]]
 \* the unregister race of Muxer.tla (Route . Unregister . Deliver)
+\* receivers that lag behind: all segments are full size and the protocols only start consuming
+\* after everything has been written (at most 8 segments per receiver, below the channel capacity)
+LagRows == <<[id |-> "pair-lag-1", kind |-> "pair", senders |-> 1, perSend |-> 8, fragment |-> FALSE, sizes |-> <<65535>>, lag |-> TRUE],
+             [id |-> "pair-lag-2", kind |-> "pair", senders |-> 3, perSend |-> 6, fragment |-> TRUE, sizes |-> <<65535, 65535, 40000>>, lag |-> TRUE]>>
 RaceRows == <<[id |-> "race-1", kind |-> "race"], [id |-> "race-2", kind |-> "race"]>>
 ASSUME ndJsonSerialize("mux.ndjson", Rows)
-ASSUME ndJsonSerialize("pair.ndjson", PairRows \o RaceRows)
+ASSUME ndJsonSerialize("pair.ndjson", PairRows \o LagRows \o RaceRows)
 =============================================================================
